@@ -42,6 +42,8 @@ def cases(tier, sd):
     for i, c in enumerate(base[:nw]):
         c = dict(c, kind='walk')
         out.append(c)
+    for r in range(4 if tier == "quick" else 16):
+        out.append(dict(kind='sweep', seed=100 * sd + r))
     for r in range(6 if tier == "quick" else 30):
         out.append(dict(kind='over_time', seed=100 * sd + r))
     for r in range(6 if tier == "quick" else 30):
@@ -133,7 +135,9 @@ def run_over_time(spec, res):
         return rel['Ktrace'] + rel['alpha']
     vars1 = ['Ktrace', 'st_Riemann_down4', {'mine': custom}]
     vars2 = ['st_Weyl_down4', 'gtt', 's_RicciS']
-    est = ['max', {'myest': lambda a: float(np.mean(a))}]
+    builtin = list(atime.est_functions.keys())
+    est = [str(v) for v in rng.choice(builtin, 4, replace=False)] + \
+          ['median', {'myest': lambda a: float(np.mean(a))}]
     ledger = monitor.ArrayLedger()
     ledger.register(data, "over_time data:", "start")
     snaps = dict(data=snapshot(data), vars1=list(vars1), vars2=list(vars2), est=list(est))
@@ -152,7 +156,7 @@ def run_over_time(spec, res):
         "caller's data dict (contents)": same(data, snaps['data']),
         "vars list (call 1)": same(vars1, snaps['vars1']),
         "vars list (call 2)": same(vars2, snaps['vars2']),
-        "estimates list": len(est) == len(snaps['est']) and est[0] == 'max',
+        "estimates list": len(est) == len(snaps['est']) and est[:5] == snaps['est'][:5],
         "result of call 1 after being passed to call 2": all(
             same(out1[k], snap_out1[k]) for k in snap_out1 if k in out1) and list(out1.keys()) == list(snap_out1.keys()),
     }
@@ -178,7 +182,13 @@ def run_io(spec, res):
                 'rho': [rng.normal(size=(3, 4, 2)) for _ in its],
                 'gxx': [rng.normal(size=(3, 4, 2)) for _ in its]}
         param = {'datapath': tmp + '/'}
-        vars_ = ['rho'] if rng.random() < 0.5 else ['gxx', 'rho']
+        vars_ = [['rho'], ['gxx', 'rho'], ['it', 'rho'], ['t', 'gxx'], ['rho', 'it', 't'],
+                 ['it']][int(rng.integers(6))]
+        if rng.random() < 0.25:
+            del data['it']                   # positional correspondence only
+            its = sorted(its)
+            data['t'] = [0.5 * i for i in its]
+            vars_ = [v for v in vars_ if v != 'it'] or ['rho']
         it_ = list(its[:3]) if rng.random() < 0.5 else list(its)
         snaps = dict(data=snapshot(data), vars=list(vars_), it=list(it_), param=dict(param))
         with common.Quiet():
@@ -209,7 +219,50 @@ def run_io(spec, res):
         shutil.rmtree(tmp, ignore_errors=True)
 
 
+def run_sweep(spec, res):
+    """Every key twice in random order with eviction disabled: when a key is
+    computed the second time every other value is cached, so an in-place
+    update of ANY cached array by ANY key shows up in the ledger."""
+    rng = np.random.default_rng([int(spec['seed']), 74])
+    keys = [k for k in H.all_keys() if k not in H.SLOW]
+    style = ['tensor', 'components', 'solution', 'vacuum'][spec['seed'] % 4]
+    if style == 'solution':
+        m = dict(family='solution', module=['Collins_Stewart', 'Szekeres'][spec['seed'] // 4 % 2])
+    elif style == 'vacuum':
+        m = dict(family=S.PulledBack.name, seed=int(rng.integers(1 << 20)), base='kasner', period=2.0)
+    else:
+        m = dict(family=S.ADMTrig.name, seed=int(rng.integers(1 << 20)), period=2.0, shear=0.3)
+    wspec = dict(member=m, style='tensor' if style in ('vacuum',) else style,
+                 vacuum=(style == 'vacuum'), Lambda=0.1 if style in ('tensor', 'components') else 0.0,
+                 tetrad=None, n1=(9 if style == 'solution' else 6), order=2,
+                 mode=('open' if style == 'solution' else 'periodic'),
+                 cache=dict(every=10 ** 9, gb=1e9, importance=None))
+    order1 = [keys[i] for i in rng.permutation(len(keys))]
+    order2 = [keys[i] for i in rng.permutation(len(keys))]
+    ops = [('key', k) for k in order1 + order2] + [('helper', h) for h in H.HELPERS]
+    ledger = monitor.ArrayLedger()
+    hits = []
+
+    def audit(i, op, rel, val):
+        if val is not None:
+            ledger.register(val, f"returned:{op[1]}", f"op{i}")
+        for b in ledger.audit(f"op{i}:{op[1]}"):
+            hits.append(b)
+    c01.run_walk(wspec, wspec['n1'], ops, fresh_for=set(), ledger=ledger, audit=audit)
+    res['observations'] += len(ops) * max(len(ledger.entries), 1)
+    res['monitor'] = dict(sweep_requests=len(ops), ledger_arrays=len(ledger.entries))
+    seen = set()
+    for b in hits:
+        role = b['role'].split('[')[0]
+        mech = f"in-place change of {role.split(':')[0]} array '{role.split(':')[1]}' by request {b['after_op'].split(':', 1)[1]}"
+        if mech not in seen:
+            seen.add(mech)
+            common.add_violation(res, mech, dict(b, style=style))
+    if not hits:
+        res['nontrivial'].append(['sweep', style, len(ops)])
+
+
 def run_case(spec):
     res = common.new_result(spec)
-    {'walk': run_walk, 'over_time': run_over_time, 'io': run_io}[spec['kind']](spec, res)
+    {'walk': run_walk, 'sweep': run_sweep, 'over_time': run_over_time, 'io': run_io}[spec['kind']](spec, res)
     return res
